@@ -19,6 +19,7 @@ mod codec;
 mod netgen;
 mod server;
 mod stream;
+mod universal;
 
 pub fn split_rtu_public(d: &[u8]) -> Option<Vec<(u8, Vec<u8>)>> {
     stream::split_rtu_clean(d, true)
@@ -68,6 +69,21 @@ pub fn generate(out: &mut Out, prop: &str, thorough: bool, seed: u64) {
         "C19" => codec::gen_c19(out, &mut rng, thorough),
         "C20" => client::gen_c20(out, &mut rng, thorough),
         _ => panic!("no generator for {prop}"),
+    }
+    // breadth for the correspondence: random histories over all dimensions at once
+    let n = if thorough { 20_000 } else { 1_500 };
+    match prop {
+        "C01" | "C02" | "C09" => {
+            universal::gen_cli_histories(out, &mut rng, n / 2);
+            universal::gen_srv_histories(out, &mut rng, n / 2);
+        }
+        "C06" | "C10" | "C12" | "C13" | "C15" | "C16" | "C20" => universal::gen_cli_histories(out, &mut rng, n),
+        "C07" | "C14" => universal::gen_srv_histories(out, &mut rng, n),
+        "C03" => {
+            universal::gen_cli_histories(out, &mut rng, n);
+            universal::gen_srv_histories(out, &mut rng, n);
+        }
+        _ => {}
     }
 }
 
